@@ -112,7 +112,7 @@ let model_line ?(with_flags = false) (c : parsed) : string =
   let idl = ids_of st.st_inputs in
   let x = (match explicit_input st with Ok v -> show_value v | _ -> "err") in
   let f = (match r with
-      | Done _ -> (match mf_of c st.st_inputs with Ok f -> string_of_n f | _ -> "err")
+      | Done _ | Insufficient -> (match mf_of c st.st_inputs with Ok f -> string_of_n f | _ -> "err")
       | _ -> "-") in
   let g = (match r with
       | Done _ ->
@@ -153,6 +153,17 @@ let verdict_of (c : parsed) (impl : string list) : string =
            | Fails _ -> "fails:-")
         | _ -> "fails:-")
      | _ -> "fails:-")
+  | "err:insufficient" :: "I" :: k :: rest ->
+    let k = int_of_string k in
+    let rec take n l = if n = 0 then ([], l) else (match l with x :: r -> let (a, b) = take (n - 1) r in (x :: a, b) | [] -> failwith "impl syntax") in
+    let (idl, rest) = take k rest in
+    let rec after_f = function "F" :: fee :: _ -> fee | _ :: r -> after_f r | [] -> "-" in
+    let fee = after_f rest in
+    let feeo = if fee = "err" || fee = "-" then None else Some (n_of_string fee) in
+    (match judge_insufficient c.strat c.offered c.sc (List.map n_of_string idl) feeo with
+     | Holds -> "holds"
+     | NotApplicable -> "na"
+     | Fails _ -> "fails:-")
   | _ -> "na"
 
 let serve () =
@@ -171,6 +182,6 @@ let () =
   if Array.length Sys.argv > 1 && Sys.argv.(1) = "serve" then serve ()
   else run_driver (fun toks impl ->
     let c = parse_case toks in
-    let m = (try model_line ~with_flags:true c with Miss s -> "oracle-miss " ^ s) in
+    let m = (try model_line ~with_flags:true c with Miss s -> "oracle-miss " ^ s | Failure e -> "driver-failure:" ^ e) in
     let v = (match impl with [] -> "na" | _ -> (try verdict_of c impl with Failure _ -> "fails:-")) in
     (m, v))
